@@ -38,3 +38,22 @@ func isoVerdict(w *iso.Worker, entry string, cs interface{}, timeout time.Durati
 	}
 	return resp, nil
 }
+
+// registerIsoResult is registerIso for handlers that also return a result value.
+func registerIsoResult[C any, R any](entry string, run func(C) (R, error)) {
+	isoHandlers[entry] = func(raw json.RawMessage) (json.RawMessage, error) {
+		var c C
+		if err := json.Unmarshal(raw, &c); err != nil {
+			return nil, fmt.Errorf("VERIF-INCONCLUSIVE cannot decode case: %v", err)
+		}
+		r, err := run(c)
+		b, _ := json.Marshal(r)
+		return b, err
+	}
+}
+
+func jsonUnmarshal(raw json.RawMessage, v interface{}) {
+	if len(raw) > 0 {
+		_ = json.Unmarshal(raw, v)
+	}
+}
